@@ -70,10 +70,10 @@ def selftest(res):
     res.info.setdefault("selftests", []).append({"name": "C18 undeclared.c", "diagnostics": len(msgs)})
 
 
-def r1_decls(res, tier, rule="R1.declared_before_use", components=None, min_units=180, tail=None):
+def r1_decls(res, tier, rule="R1.declared_before_use", components=None, min_units=180, tail=None, wflags=None, groups=None):
     units, route = factsmod.compile_db()
     chosen = [u for u in units if components is None or u["component"] in components]
-    fl = factsmod.extract(chosen, extra_flags=("-UNDEBUG",), wflags=WFLAGS, use_cache=True)
+    fl = factsmod.extract(chosen, extra_flags=("-UNDEBUG",), wflags=(wflags or WFLAGS), use_cache=True)
     n = 0
     nd = 0
     keys = {}
@@ -82,7 +82,7 @@ def r1_decls(res, tier, rule="R1.declared_before_use", components=None, min_unit
         for g in d.get("diags", []):
             if g["level"] == "note":
                 continue
-            grp = [x for x in GROUPS if "[-W%s]" % x in g["msg"]]
+            grp = [x for x in (groups or GROUPS) if "[-W%s]" % x in g["msg"]]
             if not grp and g["level"] != "error":
                 continue
             nd += 1
